@@ -89,6 +89,8 @@ def enumerate_cases(tier):
         if d not in ("masters_mismatch", "api_dup_name"):
             fmt = "cbdt" if d == "cbdt_too_big" else "glyf_colr_1"
             yield {"defect": d, "fmt": fmt, "cps": cps, "pos": 3, "seq_tail": None, "mm": None}
+    for pos, fmt in ((1, "glyf_colr_1"), (2, "glyf_colr_0"), (1, "glyf_colr_0"), (2, "cff_colr_1")):  # conflicts at palette entries 0, 5, 1
+        yield {"defect": "palette_conflict", "fmt": fmt, "cps": cps, "pos": pos, "seq_tail": None, "mm": None}
 
 
 def fname(cps, style="emoji_u"):
@@ -130,8 +132,9 @@ def plant(case):
     elif d == "bad_spread":
         bad = [fname([0x1F6A0]), '<svg xmlns="http://www.w3.org/2000/svg" viewBox="0 0 100 100"><defs><linearGradient id="g" spreadMethod="bogus"><stop offset="0" stop-color="red"/><stop offset="1" stop-color="blue"/></linearGradient></defs><rect x="10" y="10" width="50" height="50" fill="url(#g)"/></svg>', None, None]
     elif d == "palette_conflict":
-        files[0][1] = good_svg(0, '<rect x="60" y="60" width="20" height="20" fill="var(--color1, red)"/>')
-        bad = [fname([0x1F6A0]), '<svg xmlns="http://www.w3.org/2000/svg" viewBox="0 0 100 100"><rect x="10" y="10" width="30" height="30" fill="var(--color1, blue)"/></svg>', None, None]
+        k = [1, 0, 5][(case["pos"] + len(case["cps"])) % 3]  # entry 0 is an index like any other
+        files[0][1] = good_svg(0, '<rect x="60" y="60" width="20" height="20" fill="var(--color%d, red)"/>' % k)
+        bad = [fname([0x1F6A0]), '<svg xmlns="http://www.w3.org/2000/svg" viewBox="0 0 100 100"><rect x="10" y="10" width="30" height="30" fill="var(--color%d, blue)"/></svg>' % k, None, None]
     elif d == "cbdt_too_big":
         extra = ["--bitmap_resolution", "300"]
     if case["seq_tail"] and bad is None and d not in ("masters_mismatch",):
